@@ -1,7 +1,7 @@
 (* Props/C17.v — the property theorems for C17 (indexed FASTA random access).
    Only statements, `exact <lemma>` and Print Assumptions live here. *)
 From Coq Require Import ZArith List Bool String.
-From BNP Require Import Base.Prims Model.C17 Proofs.C17 Gen.C17 Bridge.C17.
+From BNP Require Import Base.Prims Model.C17 Proofs.C17 Proofs.C17_index Gen.C17 Bridge.C17.
 Import ListNotations.
 Open Scope Z_scope.
 
@@ -39,6 +39,16 @@ Theorem C17_file_level :
             fetch_interval ix (pre ++ layout eol rs) a b = slice a b (r_seq r)).
 Proof. exact spec_index_nth. Qed.
 Print Assumptions C17_file_level.
+
+(* T1: index construction.  For every FASTA that is the layout of well-formed records (non-empty sequences, line
+   width >= 1, names and sequences free of line-break bytes, no '>' inside a sequence), with LF or CRLF line ends,
+   the index the library's line scan builds (model_index: header lines, summed sequence-line lengths, offset,
+   bases per line and bytes per line of the first sequence line) IS the index the format defines (spec_index:
+   name, true sequence length, byte offset of the first base, min(width, length), that plus the line end). *)
+Theorem C17_index_correct :
+  forall eol rs, eol_ok eol -> Forall rec_wf rs -> model_index (layout eol rs) = spec_index eol rs.
+Proof. exact model_index_layout. Qed.
+Print Assumptions C17_index_correct.
 
 (* T4: the reported contig length is the sequence length column of the index. *)
 Theorem C17_contig_length : forall ix, contig_length ix = i_rlen ix.
